@@ -6,6 +6,7 @@
 use vstd::prelude::*;
 use vstd::arithmetic::div_mod::*;
 use vstd::arithmetic::mul::*;
+use vstd::arithmetic::power2::*;
 use vstd::std_specs::ops::*;
 
 verus! {
@@ -335,6 +336,92 @@ impl BaseElement {
         requires wf(self)
         ensures wf(res), v(res) == powm(v(self), power as nat)
     { /*@@body*/ }
+}
+
+// ---- roots of unity ------------------------------------------------------------------------------------
+pub const G: u128 = /*@@expr source="math/src/field/f128/mod.rs" anchor="const G: u128 ="*/;
+
+pub open spec fn pow_sq(b: int, e: nat) -> int
+    decreases e
+{
+    if e == 0 { 1 } else {
+        let h = pow_sq(b, e / 2);
+        if e % 2 == 0 { (h * h) % P } else { (((h * h) % P) * b) % P }
+    }
+}
+
+/// square-and-multiply equals the linear power (so that constants can be evaluated by `compute`)
+proof fn lemma_pow_sq(b: int, e: nat)
+    requires 0 <= b < P
+    ensures pow_sq(b, e) == powm(b, e)
+    decreases e
+{
+    if e == 0 {
+        reveal_with_fuel(powm, 1);
+    } else {
+        let h = e / 2;
+        lemma_pow_sq(b, h);
+        lemma_powm_add(b, h, h);
+        lemma_powm_range(b, h + h);
+        if e % 2 == 1 {
+            lemma_powm_add(b, h + h, 1);
+            lemma_powm_one(b);
+        }
+    }
+}
+
+proof fn lemma_shl_pow2(k: u32)
+    requires k < 128
+    ensures (1u128 << k) == pow2(k as nat)
+    decreases k
+{
+    if k == 0 {
+        assert(1u128 << 0u32 == 1) by (bit_vector);
+        lemma2_to64();
+    } else {
+        let j = (k - 1) as u32;
+        lemma_shl_pow2(j);
+        assert((1u128 << ((j + 1) as u32)) == 2 * (1u128 << j)) by (bit_vector) requires j < 127;
+        lemma_pow2_unfold(k as nat);
+    }
+}
+
+impl BaseElement {
+    pub const TWO_ADICITY: u32 = /*@@expr source="math/src/field/f128/mod.rs" anchor="const TWO_ADICITY: u32 ="*/;
+    pub const TWO_ADIC_ROOT_OF_UNITY: BaseElement = /*@@expr source="math/src/field/f128/mod.rs" anchor="const TWO_ADIC_ROOT_OF_UNITY: Self ="*/;
+
+    /// StarkField::get_root_of_unity (default method, 128-bit instantiation): for every admissible n the result has
+    /// multiplicative order exactly 2^n
+    //@@ source math/src/field/traits.rs
+    //@@ extract anchor="fn get_root_of_unity(n: u32) -> Self"
+    //@@ rewrite "Self::PositiveInteger::from(1u32)" => "1u128"
+    //@@ rewrite-re "assert!\(([^,]+),[^;]*\);" => "assert(\1);"
+    pub fn get_root_of_unity(n: u32) -> (r: Self)
+        requires n != 0, n <= BaseElement::TWO_ADICITY
+        ensures
+            wf(r),
+            powm(v(r), (1u128 << n) as nat) == 1,
+            powm(v(r), (1u128 << ((n - 1) as u32)) as nat) == P - 1,
+    {
+        let ghost a: nat = (1u128 << ((BaseElement::TWO_ADICITY - n) as u32)) as nat;
+        proof {
+            lemma_consts();
+            assert(BaseElement::TWO_ADICITY == 40 && G as int == 23953097886125630542083529559205016746int) by (compute);
+            let g = G as int;
+            assert(pow_sq(G as int, 0x100_0000_0000nat) == 1) by (compute);
+            assert(pow_sq(G as int, 0x80_0000_0000nat) == P - 1) by (compute);
+            lemma_pow_sq(g, 0x100_0000_0000nat);
+            lemma_pow_sq(g, 0x80_0000_0000nat);
+            lemma_shl_pow2((40 - n) as u32); lemma_shl_pow2(n); lemma_shl_pow2((n - 1) as u32);
+            lemma_pow2_adds((40 - n) as nat, n as nat);
+            lemma_pow2_adds((40 - n) as nat, (n - 1) as nat);
+            lemma2_to64(); lemma2_to64_rest();
+            assert(pow2(40) == 0x100_0000_0000 && pow2(39) == 0x80_0000_0000);
+            lemma_powm_pow(g, a, (1u128 << n) as nat);
+            lemma_powm_pow(g, a, (1u128 << ((n - 1) as u32)) as nat);
+        }
+        /*@@body*/
+    }
 }
 
 proof fn f128e_canary_must_fail(a: BaseElement)
